@@ -115,7 +115,7 @@ Print Assumptions C09_views_only_used.
 Theorem C09_same_bytes : forall (H : bytes -> bytes) (b0 : builder) (cm : costmdls) (b1 b : builder) (t : tx),
   wf_builder b0 -> known_stale_lang b0 = false ->
   calc_script_data_hash H b0 cm = Ok b1 ->
-  (has_script_items b0 = true \/ b_script_data_hash b0 = None) ->
+  (has_script_items b0 = true \/ b_script_data_hash b0 = None \/ (calc_clears_own_hash = true /\ b_hash_calculated b0 = true)) ->
   script_view b = script_view b0 -> b_script_data_hash b = b_script_data_hash b1 ->
   build_tx H b = Ok t ->
   let fs := ws_fields (tx_witness_set t) in
@@ -130,7 +130,7 @@ Theorem C09_same_bytes_history : forall (H : bytes -> bytes) (ops : list op) (cm
   let b0 := fst (run H builder_new (rev before)) in
   let b := fst (run H builder_new ops) in
   is_ok (calc_script_data_hash H b0 cm) = true ->
-  has_script_items b0 || is_none (b_script_data_hash b0) = true ->
+  has_script_items b0 || is_none (b_script_data_hash b0) || (calc_clears_own_hash && b_hash_calculated b0) = true ->
   known_stale_lang b0 = false ->
   build_tx H b = Ok t ->
   let fs := ws_fields (tx_witness_set t) in
@@ -231,31 +231,46 @@ Proof. exact stale_lang_refuted. Qed.
 Print Assumptions C09_stale_lang_refuted.
 
 
-(* known class C09-noop-calc-keeps-hash (status known: /repo frozen).  calc_script_data_hash stores a hash and never
-   clears one: when every Plutus witness present at an earlier calc has been replaced away (the outpoint added again as a
-   key input, a sub-builder replaced), the last calc finds nothing to hash and leaves the earlier hash; build_tx emits it
-   although the witness set has no redeemers and no datums.  The histories consist of add_* / set_* calls only and the
-   hash IS computed after the last one, so the property is violated; C09_same_bytes_history excludes the class through its
-   premise `has_script_items b0 || is_none (hash b0)`, C09_same_bytes_additive through `additive` (no replacement). *)
+(* C09-noop-calc-keeps-hash (repaired).  calc_script_data_hash stored a hash and never cleared one: when every Plutus
+   witness present at an earlier calc had been replaced away (the outpoint added again as a key input, a sub-builder
+   replaced), the last calc found nothing to hash and left the earlier hash; build_tx emitted it although the witness set
+   has no redeemers and no datums.  The histories consist of add_* / set_* calls only and the hash IS computed after the
+   last one: a violation.  Since the repair a hash that calc itself stored is removed by such a calc (a hash given with
+   set_script_data_hash stays): the third alternative of the premise of C09_same_bytes / C09_same_bytes_history. *)
 Theorem C09_noop_calc_refuted : forall H : bytes -> bytes,
-  exists t p,
-    build_tx H (fst (run H builder_new noop_calc_ops)) = Ok t /\
+  (exists t p,
+    noop_shape (noop_state H) = true /\
+    calc_script_data_hash_gen H false (noop_state H) stale_lang_cm = Ok (noop_state H) /\
+    build_tx H (noop_state H) = Ok t /\
     tx_script_data_hash t = Some (H p) /\
     (let fs := ws_fields (tx_witness_set t) in
      assoc_field 5 fs = None /\ assoc_field 4 fs = None /\
-     ledger_script_integrity H (assoc_field 5 fs) (assoc_field 4 fs) (langs_used (fst (run H builder_new noop_calc_ops))) stale_lang_cm = None) /\
-    snd (run H builder_new noop_calc_ops) = [true; true] /\
-    known_noop_calc H noop_calc_ops = true /\
-    additive H builder_new noop_calc_ops = false /\
-    build_tx H (fst (run H builder_new [OpSetSub SubCollateral (mk_sub [] [] []) 1; OpSetSub SubInputs (mk_sub [] [V2] []) 0; OpCalc stale_lang_cm])) = Err.
+     ledger_script_integrity H (assoc_field 5 fs) (assoc_field 4 fs) (langs_used (noop_state H)) stale_lang_cm = None)) /\
+  (exists b', calc_script_data_hash_gen H true (noop_state H) stale_lang_cm = Ok b' /\ b_script_data_hash b' = None /\ build_tx H b' = Err) /\
+  (exists b' t, noop_shape (noop_mint_state H) = true /\
+     calc_script_data_hash_gen H true (noop_mint_state H) stale_lang_cm = Ok b' /\ build_tx H b' = Ok t /\ tx_script_data_hash t = None) /\
+  additive H builder_new noop_calc_ops = false.
 Proof. exact noop_calc_refuted. Qed.
+
+(* C09_same_bytes for both values of the switch calc_clears_own_hash *)
+Theorem C09_same_bytes_gen : forall (H : bytes -> bytes) (clears : bool) (b0 : builder) (cm : costmdls) (b1 b : builder) (t : tx),
+  wf_builder b0 -> known_stale_lang b0 = false ->
+  calc_script_data_hash_gen H clears b0 cm = Ok b1 ->
+  (has_script_items b0 = true \/ b_script_data_hash b0 = None \/ (clears = true /\ b_hash_calculated b0 = true)) ->
+  script_view b = script_view b0 -> b_script_data_hash b = b_script_data_hash b1 ->
+  build_tx H b = Ok t ->
+  let fs := ws_fields (tx_witness_set t) in
+  tx_script_data_hash t = ledger_script_integrity H (assoc_field 5 fs) (assoc_field 4 fs) (langs_used b) cm.
+Proof. exact same_bytes_gen. Qed.
+Print Assumptions C09_same_bytes_gen.
 Print Assumptions C09_noop_calc_refuted.
 
-(* calc_script_data_hash on a builder without script items is a no-op: a hash stored earlier is kept (the reason for
-   the premise `has_script_items b0 \/ hash b0 = None` above) *)
-Theorem C09_calc_noop_keeps_hash : forall (H : bytes -> bytes) (b : builder) (cm : costmdls),
-  has_script_items b = false -> wf_builder b -> known_stale_lang b = false -> calc_script_data_hash H b cm = Ok b.
-Proof. exact calc_noop_keeps_hash. Qed.
+(* calc_script_data_hash on a builder without script items: as found nothing changes (whoever stored the hash);
+   repaired, a hash that calc itself stored is removed and a hash given by the caller stays *)
+Theorem C09_calc_noop_keeps_hash : forall (H : bytes -> bytes) (clears : bool) (b : builder) (cm : costmdls),
+  has_script_items b = false -> wf_builder b -> known_stale_lang b = false ->
+  calc_script_data_hash_gen H clears b cm = Ok (if clears && b_hash_calculated b then set_hash_flag b None false else b).
+Proof. exact calc_noop. Qed.
 Print Assumptions C09_calc_noop_keeps_hash.
 
 (* well-formedness is an invariant of every history *)
@@ -282,7 +297,7 @@ Theorem C09_same_bytes_history_bytes : forall (H : bytes -> bytes) (ops : list o
   let b0 := fst (run H builder_new (rev before)) in
   let b := fst (run H builder_new ops) in
   is_ok (calc_script_data_hash H b0 cm) = true ->
-  has_script_items b0 || is_none (b_script_data_hash b0) = true ->
+  has_script_items b0 || is_none (b_script_data_hash b0) || (calc_clears_own_hash && b_hash_calculated b0) = true ->
   known_stale_lang b0 = false ->
   build_tx H b = Ok t ->
   Forall (fun kv => item_wf (snd kv) = true) (ws_fields (tx_witness_set t)) ->
@@ -313,7 +328,8 @@ Theorem C09_judge_accepts_model : forall (H : bytes -> bytes) (ops : list op) (c
   build_tx H (fst (run H builder_new ops)) = Ok t ->
   last_calc_rev (rev ops) = Some (cm, before) ->
   is_ok (calc_script_data_hash H (fst (run H builder_new (rev before))) cm) = true ->
-  has_script_items (fst (run H builder_new (rev before))) || is_none (b_script_data_hash (fst (run H builder_new (rev before)))) = true ->
+  has_script_items (fst (run H builder_new (rev before))) || is_none (b_script_data_hash (fst (run H builder_new (rev before))))
+    || (calc_clears_own_hash && b_hash_calculated (fst (run H builder_new (rev before)))) = true ->
   known_stale_lang (fst (run H builder_new (rev before))) = false ->
   other_ok other -> len (body_fields other t) < two64 ->
   hash_ok (tx_script_data_hash t) -> hash_ok (tx_aux_data_hash t) ->
@@ -435,10 +451,13 @@ Example C09_entries_example :
   known_stale_lang_gen true (builder_of ex_pay ex_txb 1 None None None) = true /\
   NoDup (map fst (P.t_wdrl ex_txb)).
 Proof. repeat split; try reflexivity. constructor. Qed.
-(* the class is narrow: a hash installed by hand, or a final calc that had something to hash, is not in it *)
+(* the class shape is narrow: a hash installed by hand, or a final calc that had something to hash, is not in it *)
 Example C09_noop_class_narrow :
   known_noop_calc idH [OpSetHash [1]; OpCalc cm_empty] = false /\
   known_noop_calc idH (noop_calc_ops ++ [OpAddExtraDatum ex_datum_a; OpCalc stale_lang_cm]) = false /\
-  known_noop_calc idH ex_ops = false.
+  known_noop_calc idH ex_ops = false /\
+  known_noop_calc idH noop_calc_ops = true /\
+  (* a hash given by the caller stays through a calc with nothing to hash, whatever the switch *)
+  b_script_data_hash (fst (run idH builder_new [OpSetHash [1]; OpCalc cm_empty])) = Some [1].
 Proof. repeat split; reflexivity. Qed.
 
